@@ -9,6 +9,8 @@ pub mod c02;
 pub mod c03;
 pub mod c04;
 pub mod c05;
+pub mod c11;
+pub mod c12;
 pub mod conf;
 pub mod reexport;
 pub mod c08;
@@ -37,5 +39,5 @@ pub struct PropDef {
 }
 
 pub fn all() -> Vec<PropDef> {
-    vec![c01::DEF, c02::DEF, c03::DEF, c04::DEF, c05::DEF, c08::DEF, reexport::C09, reexport::C10]
+    vec![c01::DEF, c02::DEF, c03::DEF, c04::DEF, c05::DEF, c08::DEF, reexport::C09, reexport::C10, c11::DEF, c12::DEF]
 }
